@@ -198,7 +198,7 @@ class Contract:
         if self.emits is not None:
             for pat in self.emits(oldr, newr, result):
                 materialize_event(interp, roots, pat)
-        elif not silent:
+        elif not silent and not self.pure:
             ctx.event("opaque_call", callee=fi.fq)
         eff = self.call_effects if self.call_effects is not None else self.effects
         for k in (() if silent else (eff or ())):
